@@ -2,7 +2,8 @@
    This file holds ONLY the property theorems (each closed by `exact <lemma>`) and their Print Assumptions. *)
 From Coq Require Import ZArith List Bool.
 From Verif Require Import X86.X86Model X86.X86Proofs X86.X86Denote X86.X86DenoteProofs X86.X86DbCheck.
-From VerifGen Require Import IsaX86Db.
+From Verif Require Import X86.X86TablesSpec X86.X86Unique X86.X86UniqueProofs.
+From VerifGen Require Import IsaX86Db X86Tables.
 Import ListNotations.
 Local Open Scope Z_scope.
 
@@ -54,6 +55,45 @@ Theorem C01_db_count : Z.of_nat (length db_rows) = db_count.
 Proof. exact db_count_ok. Qed.
 Print Assumptions C01_db_count.
 
+(* AsmJit's OWN tables (dumped from the working tree by harness/c01_dump.cpp on every run): the static encoder tables of
+   x86assembler.cpp equal their specifications -- segment override bytes, mandatory-prefix bytes, opcode-map escapes, VEX3/XOP
+   prefix template, LL by size / register type, the compressed-displacement shift of each tuple class, the 16-bit ModRM
+   tables (= the structural model's rm16_of, either operand order) and all 1024 entries of mem_info_table *)
+Theorem C01_static_tables :
+  seg_table_ok t_segment_prefix_table && pp_table_ok t_opcode_pp_table && mm_table_ok t_opcode_mm_table &&
+  vex_prefix_ok t_vex_prefix_table && ll_by_size_ok t_ll_by_size_div_16_table && ll_by_reg_type_ok t_ll_by_reg_type_table t_vec256 (rt_v512 t_reg_types) &&
+  cdisp8_table_ok t_cdisp8_shl_table && mod16_base_ok t_mod16_base_table && mod16_base_index_ok t_mod16_base_index_table &&
+  mem_info_ok t_reg_types t_mem_info_table = true.
+Proof. exact static_tables_ok. Qed.
+Print Assumptions C01_static_tables.
+
+Theorem C01_opcode_layout : t_opcode_layout = [8; 13; 16; 18; 21; 27; 28; 29; 4096].
+Proof. exact opcode_layout_ok. Qed.
+Print Assumptions C01_opcode_layout.
+
+(* the instruction table pairs every instruction id with ALL database rows of its mnemonic *)
+Theorem C01_tables_grouping : grouping_ok db_rows inst_table = true.
+Proof. exact grouping_is_ok. Qed.
+Print Assumptions C01_tables_grouping.
+
+(* for EVERY instruction id and EVERY EVEX database form of its mnemonic with a memory operand, the disp8 scale AsmJit's opcode
+   word implies (1 << (base shift + cdisp8_shl_table class shift)) equals the scale the database tuple type prescribes, for the
+   form's W and vector length, and the broadcast element sizes agree -- except the listed mnemonics (known findings) *)
+Theorem C01_tables_cd_agree_db :
+  forallb (fun p => zmem (ie_name (fst p)) cd_exceptions || cd_inst_agrees (snd p) (fst p)) inst_table = true.
+Proof. exact cd_agree_ok. Qed.
+Print Assumptions C01_tables_cd_agree_db.
+
+(* PARTIAL (C01_tables_agree_db of the design): for every instruction id of the encoding classes that use the stored opcode word
+   verbatim, the main or alternative opcode word (mandatory prefix, map, opcode byte, /digit; 0F 01 xx and 3DNow! suffix forms
+   included) is the opcode of some database form of the mnemonic. Not covered: the derived-opcode classes (mov, x87, far
+   call/jmp, pushw, pextr, ...), W / LL / VEX-vs-EVEX kind, and the converse (every database form reached). *)
+Theorem C01_tables_opcode_agree_db_partial :
+  forallb (fun p => negb (zmem (ie_enc (fst p)) verbatim_classes) || zmem (ie_name (fst p)) opcode_exceptions ||
+                    opcode_inst_agrees (snd p) (fst p)) inst_table = true.
+Proof. exact opcode_agree_ok. Qed.
+Print Assumptions C01_tables_opcode_agree_db_partial.
+
 (* every denotation is backed by the structural decoder, a database row of the opcode and the inverse operand map *)
 Theorem C01_denote_sound : forall m bs rid ops dd len,
   In (rid, ops, dd, len) (denote bucket m bs) ->
@@ -84,17 +124,32 @@ Theorem C01_other_names_spec : forall m name bs rid,
 Proof. exact (other_names_spec bucket row_of). Qed.
 Print Assumptions C01_other_names_spec.
 
-(* PARTIAL (C01_denote_unique of the design): containment is proved for all rows / operands / encoder choices; that every OTHER
-   member of the denotation names the same mnemonic with the same operands (aliases and duplicate rows only) is not proved --
-   the judge checks it per call instead (a denotation with a different mnemonic or operands is reported) *)
-Theorem C01_denote_senc_partial : forall m r s c rest ops,
+(* C01_denote_unique of the design, in two theorems.  (1) containment: the structural encoding (any admissible encoder choice, any
+   following bytes) of a well-formed instruction satisfying the constraints of a database row of its opcode bucket denotes that row,
+   with the operands of the inverse operand map and exactly the emitted length -- all register ids, displacements, immediates *)
+Theorem C01_denote_senc : forall m r s c rest ops,
   let sh := shape_of_row m r (rhead_of s) in
   wf m sh s = true -> adm m sh s c = true -> In r (bucket (s_opc s)) ->
   head_ok m r (rhead_of s) = true -> tail_ok m r s = true -> mk_operands m r s (r_ops r) = Some ops ->
   In (r_id r, rel_from_start (r_ops r) ops (Z.of_nat (length (senc m sh s c))), deco_of r s, length (senc m sh s c))
      (denote bucket m (senc m sh s c ++ rest)).
 Proof. exact (denote_senc bucket). Qed.
-Print Assumptions C01_denote_senc_partial.
+Print Assumptions C01_denote_senc.
+
+(* (2) uniqueness of the mnemonic: ANY two denotations of ANY byte string come from rows that overlap syntactically, and -- by
+   reflection over every opcode bucket of the regenerated database -- overlapping rows name the same mnemonic or a pair of
+   corpus/C01_db_alias.txt (reviewed aliases: push/pushw, nop/xchg) or corpus/C01_db_ambiguous.txt (two recorded database defects).
+   Not proved: that the operand lists of two alias rows are equal (the judge compares operands per call). *)
+Theorem C01_denote_unique : forall m bs rid1 ops1 dd1 len1 rid2 ops2 dd2 len2,
+  In (rid1, ops1, dd1, len1) (denote bucket m bs) -> In (rid2, ops2, dd2, len2) (denote bucket m bs) ->
+  exists r1 r2 h, In r1 (bucket (rh_opc h)) /\ In r2 (bucket (rh_opc h)) /\ r_id r1 = rid1 /\ r_id r2 = rid2 /\
+                  may_overlap r1 r2 = true /\ alias_ok db_aliases (r_name r1) (r_name r2) = true.
+Proof. exact (denote_unique_names bucket db_aliases db_unique). Qed.
+Print Assumptions C01_denote_unique.
+
+Theorem C01_db_unique : forallb (fun o => bucket_unique db_aliases (bucket_raw o)) (zrange 256) = true.
+Proof. exact db_unique_raw. Qed.
+Print Assumptions C01_db_unique.
 
 (* witnesses on the regenerated database: accepted encodings are mapped back to their call ... *)
 Theorem C01_example_add_rax_rcx : fst (judge bucket row_of M64 id_add [OReg 4 0; OReg 4 1] (mkD false false false 0 0 false (-1)) [72; 1; 200]) = 0.
